@@ -175,6 +175,8 @@ def signature_for(case, v):
     sig = v["spec"]
     if not case.get("special") and "nonasync" in json.dumps(case.get("tops")):
         sig += "/program-with-NonAsyncContext"
+    if not case.get("special") and case.get("cfg", {}).get("maxStack") is not None and "active-task" in sig:
+        sig += "/after-MAX_TASK_STACK_SIZE-reset"
     return sig
 
 
